@@ -21,9 +21,9 @@ type Op struct {
 	Size    int    `json:"size,omitempty"`    // base payload size
 	Vary    int    `json:"vary,omitempty"`    // payload size = Size + mix(index,salt)%Vary
 	Salt    uint32 `json:"salt,omitempty"`
-	Big     []Big  `json:"big,omitempty"`  // a few entries with their own (large) size
-	Same    int    `json:"same,omitempty"` // the first Same entries repeat what the log already holds at those indexes
-	HS      *HS    `json:"hs,omitempty"`   // nil: Save(nil,…)
+	Big     []Big  `json:"big,omitempty"`     // a few entries with their own (large) size
+	Same    int    `json:"same,omitempty"`    // the first Same entries repeat what the log already holds at those indexes
+	HS      *HS    `json:"hs,omitempty"`      // nil: Save(nil,…)
 	SnapArg int    `json:"snaparg,omitempty"` // 0: nil snapshot pointer, 1: pointer to an empty snapshot, 2: conf-state-only snapshot
 
 	// snap (CreateSnapshot), del (DeleteBefore), install (Save(hs,nil,snapshot ahead of an empty log)), setuint
